@@ -19,6 +19,7 @@ def runCase (c : Case) : IO Unit := do
   | "dict" => runDict c (modelFor c) emit
   | "vbyte" => runVByte c emit
   | "logseq" => runLogSeq c emit
+  | "dac" => runDac c emit
   | "pool" => runPool c emit
   | "codes" | "bits" | "repair" => runCheckStreams c emit
   | _ => emit 1 s!"ERR unknown-stream {c.stream}"
